@@ -190,6 +190,9 @@ type ProtoClient struct {
 	Namespace string
 	// OnCurrent, when set, sees every answer of Current (harness bookkeeping: which version did the caller act on?).
 	OnCurrent func(v *Version)
+	// FailCurrent, when set, may make Current fail (the protocol client of a deployment reads its configuration from
+	// somewhere and may be unavailable).
+	FailCurrent func() error
 }
 
 // NewProtoClient sorts versions by genesis time.
@@ -203,6 +206,12 @@ func NewProtoClient(k *simkit.Kernel, now func() uint64, versions ...*Version) *
 func (c *ProtoClient) Current() (protocol.Version, error) {
 	if c.YieldLabel != "" {
 		c.K.Yield(c.YieldLabel + ".Current")
+	}
+
+	if c.FailCurrent != nil {
+		if err := c.FailCurrent(); err != nil {
+			return nil, err
+		}
 	}
 
 	v, err := c.at(c.Now())
